@@ -79,7 +79,8 @@ def check(ctx, src):
               "hy/core/macros.hy", dr.line, witness="a reader macro is not usable in the next top-level form", detail="eval-and-compile + eval-when-compile")
     td = rq.handlers["#"][2]
     tt = flat(td)
-    ctx.check("if ident in self.reader_macros:" in tt and "raise LexException.from_reader(f\"reader macro '{key + ident}' is not defined\", self)" in tt, "DEFREADER", f"{HR}|tag_dispatch|undefined", "an undefined reader macro must raise LexException", HR, td.lineno, detail="LexException")
+    undef = pyq.contains(td, lambda n: isinstance(n, ast.Raise) and isinstance(n.exc, ast.Call) and dotted(n.exc.func) == "LexException.from_reader" and any(g == "ident not in self.reader_macros" for g in pyq.guard_texts(n, td)))
+    ctx.check(undef is not None, "DEFREADER", f"{HR}|tag_dispatch|undefined", "an undefined reader macro must raise LexException", HR, td.lineno, detail="LexException")
     ctx.floor("LAZY", 8)
     ctx.floor("ISOLATION", 8)
 
